@@ -127,6 +127,7 @@ PQuiesce ==
   /\ (\E t \in DOMAIN pool.task : pool.task[t].st # "done") => Bad("task-never-ran")
   /\ UNCHANGED <<pool, lk, cv, pw, nl>>
 
+Crash == Is("crash") /\ Bad("scenario-panicked") /\ UNCHANGED <<pool, lk, cv, pw, nl>>
 Timeout == Is("timeout") /\ Bad("scenario-did-not-finish-deadlock-or-lost-wakeup") /\ UNCHANGED <<pool, lk, cv, pw, nl>>
 
 \* ------------------------------------------------------------------ read-optimised lock
@@ -184,7 +185,7 @@ VEnd ==
   /\ UNCHANGED <<pool, lk, cv, pw, nl>>
 
 \* ------------------------------------------------------------------ parallel writer
-WBegin == Is("w_begin") /\ pw' = [init |-> Ev.init, cells |-> [i \in 0 .. (Len(Ev.init) - 1) |-> Ev.init[i + 1]]]
+WBegin == Is("w_begin") /\ pw' = (IF Has(Ev, "init") THEN [init |-> Ev.init, cells |-> [i \in 0 .. (Len(Ev.init) - 1) |-> Ev.init[i + 1]]] ELSE Pw0)
           /\ UNCHANGED <<pool, lk, cv, nl>>
 WWriteRet ==
   /\ Is("w_write_ret")
@@ -217,7 +218,7 @@ NReset ==
 
 TraceInit == l = 1 /\ pool = Pool0 /\ lk = Lk0 /\ cv = Cv0 /\ pw = Pw0 /\ nl = Nl0
 TraceNext ==
-  \/ PBegin \/ PScopeOpen \/ PVid \/ PSpawn \/ PStart \/ PEnd \/ PRootEnd \/ PScopeRet \/ HOp \/ HDone \/ HOther \/ PQuiesce \/ Timeout
+  \/ PBegin \/ PScopeOpen \/ PVid \/ PSpawn \/ PStart \/ PEnd \/ PRootEnd \/ PScopeRet \/ HOp \/ HDone \/ HOther \/ PQuiesce \/ Timeout \/ Crash
   \/ LBegin \/ LRin \/ LRout \/ LWin \/ LWout
   \/ VBegin \/ VPushCall \/ VPushRet \/ VReadCall \/ VReadRet \/ VEnd
   \/ WBegin \/ WWriteRet \/ WRead \/ WEnd
